@@ -452,3 +452,116 @@ def match_shape(run):
                         if any(isinstance(pr, dict) and pr.get("name") == "exact_part_count" for pr in pl["p"]):
                             keyed += 1
     run.check(keyed >= 2, R, R + "|max-exact-key", mi.loc(), "both the maximum and the filter are keyed on exact_part_count", "the selection closures no longer read exact_part_count")
+
+
+def sk_provider(run):
+    """the providers that feed is_value_statically_known answer `known` only from audited sources"""
+    R = "SK"
+    prog = run.prog
+    spec = run.table("idx")["providers"]
+    n = 0
+    for f in prog.real_fns():
+        for bi, si, st in f.stmts():
+            if st["k"] != "assign" or not st["place"]["p"]:
+                continue
+            last = st["place"]["p"][-1]
+            if not (isinstance(last, dict) and last.get("name") in ("query_variable", "query_function")):
+                continue
+            if "StaticallyKnownProvider" not in f.local_ty(st["place"]["l"]):
+                continue
+            n += 1
+            fld = last["name"]
+            o = peel(f.origin_op(st["rv"]["op"])) if st["rv"]["k"] in ("use", "cast") else ("other",)
+            from mir import closure_of_origin
+            cid = closure_of_origin(o)
+            if cid is None and o[0] == "const":
+                # `&fn_item` promoted to a constant
+                m = re.search(r"promoted\[(\d+)\]", o[1].get("const", ""))
+                if m:
+                    pf = prog.fn("%s::{promoted#%s}" % (f.raw["owner"], m.group(1)))
+                    if pf is not None:
+                        for b2, s2, st2 in pf.stmts():
+                            for op2 in rv_operands(st2["rv"]):
+                                if "fn" in op2:
+                                    cid = op2["fn"]
+            key = "SK|provider|%s|%s" % (f.id, fld)
+            if cid is None:
+                run.violation(R, key, f.loc(st["span"]), "%s installs a %s callback of unrecognised origin" % (f.id, fld))
+                continue
+            if fld == "query_function":
+                run.check(cid in spec["query_function"], R, key, f.loc(st["span"]),
+                          "%s: function queries are answered by %s (audited)" % (f.id, cid),
+                          "%s: function queries are answered by `%s`, not by the audited builtin table: calls whose value depends on addresses or symbols would be frozen as statically known" % (f.id, cid))
+            else:
+                g = prog.fn(cid)
+                ok = g is not None and _returns_only(g, (".value_statically_known",))
+                run.check(ok, R, key, f.loc(st["span"]),
+                          "%s: variable queries return false or the symbol's value_statically_known flag" % f.id,
+                          "%s: the variable-query callback can answer `known` from something other than the symbol's value_statically_known flag" % f.id)
+    run.floor(R, "provider callbacks installed", n, 2)
+    # default provider answers false
+    d = run.anchor(R, "StaticallyKnownProvider::<'a>::new")
+    if d:
+        for g in prog.real_fns():
+            if g.kind == "Closure" and g.raw.get("parent") == d.id:
+                run.check(_returns_only(g, ()), R, "SK|provider|default|" + g.id.rsplit("::", 1)[-1], g.loc(), "default provider callback answers false", "a default provider callback can answer `known`")
+    # the builtin table
+    b = run.anchor(R, "eval_fn::get_statically_known_builtin_fn")
+    if b:
+        got = {}
+        for a in T.str_eq_arms(b):
+            val = None
+            for bb in _straight(b, a["true"]):
+                for st in b.blocks[bb]["stmts"]:
+                    if st["k"] == "assign" and st["place"]["l"] == 0 and st["rv"]["k"] == "use":
+                        val = const_int(st["rv"]["op"])
+            got[a["lit"]] = val
+        run.check(got == spec["static_builtins"], R, "SK|builtin-table", b.loc(), "statically known builtin functions: %s" % sorted(k for k, v in got.items() if v),
+                  "the table of statically known builtin functions is %s, audited %s" % (got, spec["static_builtins"]))
+    # symbols/data/instructions compute their *_statically_known flags through is_value_statically_known
+    for fld, fns in spec["flag_writers"].items():
+        writers = set()
+        for f in prog.real_fns():
+            for bi, si, st in f.stmts():
+                if st["k"] == "assign" and st["place"]["p"] and isinstance(st["place"]["p"][-1], dict) and st["place"]["p"][-1].get("name") == fld:
+                    writers.add(f.id)
+                if st["k"] == "assign" and st["rv"]["k"] == "agg" and fld in st["rv"].get("fields", []):
+                    idx = st["rv"]["fields"].index(fld)
+                    if const_int(st["rv"]["ops"][idx]) != 0:
+                        writers.add(f.id)
+        for w in sorted(writers):
+            run.check(w in fns, R, "SK|flag-writer|%s|%s" % (fld, w), prog.fn(w).loc(), "%s sets %s (audited)" % (w, fld),
+                      "%s sets `%s` but is not an audited writer: the flag must come from the static analysis of the item's expression" % (w, fld))
+
+
+def _straight(f, b, limit=6):
+    out = []
+    n = 0
+    while n < limit:
+        out.append(b)
+        s = f.succs(b)
+        if len(s) != 1:
+            break
+        b = s[0]
+        n += 1
+    return out
+
+
+def _returns_only(g, allowed_suffixes):
+    """a bool function whose return value is the constant false or a load of a field with one of the given suffixes"""
+    for d in g.full_defs(0):
+        if d[0] == "call":
+            return False
+        st = d[3]
+        rv = st["rv"]
+        if rv["k"] != "use":
+            return False
+        c = const_int(rv["op"])
+        if c == 0:
+            continue
+        if c is not None:
+            return False
+        dd = describe_origin(g, g.origin_op(rv["op"]))
+        if not any(dd.endswith(s) for s in allowed_suffixes):
+            return False
+    return True
